@@ -147,6 +147,160 @@ class SigmaSolve(Interp):
         return Interp.store_sub(self, tgt, val, node)
 
 
+class FourierTerm:
+    """value of a list comprehension / accumulation over the axis harmonics: the generic term for harmonic jn"""
+    def __init__(self, expr):
+        self.expr = expr
+
+
+class InitAxis(Interp):
+    """init_axis: irregular glue around straight-line formulas.  Recognised exactly (anything else fails closed):
+      * phi = np.linspace(0, 2*pi/nfp, nphi, endpoint=False): `phi` becomes the profile input "phi" (its defining property
+        phi[k] = k*d_phi is used by Axis.v), phi[1]-phi[0] is kept symbolic through the Linspace value;
+      * the harmonic loop `for jn in range(0, self.nfourier)`: executed once for a symbolic harmonic; the accumulated terms are emitted
+        as the separate program init_axis_term and the sums R0..Z0ppp become the inputs "R0".."Z0ppp" of the main program;
+      * spectral_diff_matrix(self.nphi, xmax=2*np.pi/self.nfp); the row scaling loop defining d_d_varphi (pattern checked: this is
+        what justifies translating np.matmul(d_d_varphi, a) as (D_phi a)/d_varphi_d_phi everywhere);
+      * the cumulative trapezoid loop for varphi (source text checked; the partial sums are the input "varphi_cumsum");
+      * splines (opaque) -- but the Fourier sums handed to R0_func / Z0_func are translated (program init_axis_term);
+      * self.lasym (boolean expression: recorded as text, modelled in Lasym.v)."""
+    VARPHI_BODY = 'self.varphi[j] = self.varphi[j - 1] + (d_l_d_phi[j - 1] + d_l_d_phi[j])'
+    DDV_BODY = 'self.d_d_varphi[j, :] = self.d_d_phi[j, :] / self.d_varphi_d_phi[j]'
+
+    def __init__(self, *a, **k):
+        Interp.__init__(self, *a, **k)
+        self.term_prog = []
+        self.facts = {}
+
+    def stmt(self, st):
+        import ast
+        if isinstance(st, ast.Assign) and len(st.targets) == 1:
+            t = st.targets[0]
+            if isinstance(t, ast.Attribute) and isinstance(t.value, ast.Name) and t.value.id in self.self_names:
+                if t.attr == 'lasym':
+                    self.facts['lasym_expr'] = ast.unparse(st.value)
+                    return
+                if isinstance(st.value, ast.Call) and ast.unparse(st.value.func) == 'self.convert_to_spline':
+                    arg = st.value.args[0]
+                    if t.attr in ('R0_func', 'Z0_func'):
+                        v = self.expr(arg)
+                        if not isinstance(v, FourierTerm):
+                            self.err('%s is not built from a sum over the axis harmonics' % t.attr, st)
+                        self.term_prog.append((t.attr + '_term', v.expr))
+                    else:
+                        self.facts.setdefault('splines', {})[t.attr] = ast.unparse(arg)
+                    return
+        return Interp.stmt(self, st)
+
+    def for_loop(self, st):
+        import ast
+        rng = ast.unparse(st.iter)
+        if rng == 'range(0, self.nfourier)':
+            self.harmonic_loop(st)
+            return
+        if rng == 'range(1, nphi)':
+            body = '; '.join(ast.unparse(b) for b in st.body)
+            if body != self.VARPHI_BODY:
+                self.err('unexpected varphi recurrence: %s' % body, st)
+            self.facts['varphi_recurrence'] = body
+            self.inputs['varphi_cumsum'] = 'p'
+            self.selfobj._attrs['varphi'] = var('varphi_cumsum', 'p')
+            return
+        if rng == 'range(nphi)' and len(st.body) == 1 and ast.unparse(st.body[0]) == self.DDV_BODY:
+            self.facts['d_d_varphi_rows'] = self.DDV_BODY
+            return
+        return Interp.for_loop(self, st)
+
+    def harmonic_loop(self, st):
+        import ast
+        jn = var('jn', 's')
+        self.inputs['jn'] = 's'
+        self.locals[st.target.id] = jn
+        acc_before = {k: v for k, v in self.locals.items()}
+        saved_prog = self.prog
+        self.prog = []
+        terms = {}
+        for b in st.body:
+            if isinstance(b, ast.AugAssign) and isinstance(b.op, ast.Add) and isinstance(b.target, ast.Name):
+                nm = b.target.id
+                val = lift(self.expr(b.value))
+                terms[nm] = val
+            else:
+                self.stmt(b)
+        loop_locals = self.prog
+        self.prog = saved_prog
+        for (n, e) in loop_locals:
+            self.term_prog.append((n, e))
+        for nm, e in terms.items():
+            self.term_prog.append((nm + '_term', e))
+            self.inputs[nm + '_sum'] = 'p'
+            self.locals[nm] = var(nm + '_sum', 'p')   # the Fourier sum over all harmonics: an input of the main program
+        self.facts['harmonic_sums'] = sorted(terms)
+        del self.locals[st.target.id]
+
+    def self_get(self, attr, node):
+        if attr in ('rc', 'zs', 'rs', 'zc'):
+            return Opaque('coef:' + attr)
+        if attr == 'd_d_phi' and 'd_d_phi' in self.selfobj._attrs:
+            return self.selfobj._attrs['d_d_phi']
+        return Interp.self_get(self, attr, node)
+
+    def e_Subscript(self, e):
+        import ast
+        obj = self.expr(e.value)
+        if isinstance(obj, Opaque) and obj.what.startswith('coef:'):
+            idx = self.index(e.slice)
+            if len(idx) == 1 and isinstance(idx[0], E) and idx[0].op == 'Var' and idx[0].args[0] == 'jn':
+                nm = obj.what[5:] + '_jn'
+                self.inputs[nm] = 's'
+                return var(nm, 's')
+            self.err('unsupported access to an axis coefficient array: %s' % ast.unparse(e), e)
+        return Interp.e_Subscript(self, e)
+
+    def e_ListComp(self, e):
+        import ast
+        g = e.generators[0]
+        it = ast.unparse(g.iter)
+        if it in ('range(len(self.rc))', 'range(len(self.zs))', 'range(len(self.rs))', 'range(len(self.zc))'):
+            self.locals[g.target.id] = var('jn', 's')
+            v = lift(self.expr(e.elt))
+            del self.locals[g.target.id]
+            return FourierTerm(v)
+        return Interp.e_ListComp(self, e)
+
+    def c_sum(self, a):
+        if isinstance(a, FourierTerm):
+            return a
+        return Interp.c_sum(self, a)
+
+    def c_np_linspace(self, start, stop, n, endpoint=True):
+        L = Interp.c_np_linspace(self, start, stop, n, endpoint=endpoint)
+        self.inputs['phi'] = 'p'
+        self.facts['phi'] = 'linspace(0, stop, nphi, endpoint=False)'
+        return L
+
+    def c_spectral_diff_matrix(self, n, xmax=None, xmin=0):
+        self.facts['spectral_diff_matrix'] = 'n=nphi' if isinstance(n, NPhi) else 'n=?'
+        self.emit('d_d_phi_xmax', lift(xmax))
+        return Opaque('d_d_phi')
+
+    def c_np_zeros(self, shape):
+        if isinstance(shape, tuple) and len(shape) == 2 and all(isinstance(x, NPhi) for x in shape):
+            return Opaque('square-zeros')
+        return Interp.c_np_zeros(self, shape)
+
+    def on_self_method(self, name, args, kw, node):
+        return Interp.on_self_method(self, name, args, kw, node)
+
+    def finish(self):
+        for k in ('lasym_expr', 'varphi_recurrence', 'd_d_varphi_rows', 'spectral_diff_matrix', 'harmonic_sums', 'phi'):
+            if k not in self.facts:
+                self.err('init_axis: expected construct not found: %s' % k)
+        if self.facts['spectral_diff_matrix'] != 'n=nphi':
+            self.err('spectral_diff_matrix is not called with n = nphi')
+        self.extra_programs = {'init_axis_term': self.term_prog}
+
+
 class Jac(Interp):
     """_jacobian: the returned matrix is  D/dvarphi + diag(d) with column 0 replaced by c.
     Emitted as the Jacobian-vector product  ret = J @ h  for a symbolic direction h."""
@@ -197,12 +351,29 @@ class WithReturn(Interp):
         return Interp.on_self_method(self, name, args, kw, node)
 
 
+def free_vars(prog, kinds_hint):
+    """names read before being bound: the true inputs of a program"""
+    bound, free = set(), {}
+    def walk(e):
+        if e.op == 'Var':
+            if e.args[0] not in bound:
+                free.setdefault(e.args[0], e.kind)
+        for a in e.args:
+            if isinstance(a, E):
+                walk(a)
+    for n, e in prog:
+        walk(e)
+        bound.add(n)
+    return free
+
+
 def programs(kinds):
     """(relfile, function, variant-name, decisions, params, interpreter class)"""
     H0 = {'self.helicity == 0': True}
     HN = {'self.helicity == 0': False}
     P = []
     X = StateVec(var('xs', 'p'), var('xi', 's'))
+    P.append(('qsc/init_axis.py', 'init_axis', '', {}, {}, InitAxis))
     P.append(('qsc/calculate_r1.py', '_residual', '', {}, {'x': X}, Interp))
     P.append(('qsc/calculate_r1.py', '_jacobian', '', {}, {'x': X}, Jac))
     P.append(('qsc/calculate_r1.py', 'solve_sigma_equation', '', {}, {}, SigmaSolve))
@@ -266,17 +437,24 @@ def main():
             manifest['errors'].append('%s %s: internal %r' % (relfile, fn, ex))
             continue
         byfile.setdefault(fn.lstrip('_'), []).append((pname, it))
+        for xn, xp in getattr(it, 'extra_programs', {}).items():
+            class _X: pass
+            x = _X(); x.prog = xp
+            byfile[fn.lstrip('_')].append((xn, x))
+            manifest['programs'][xn] = {'file': relfile, 'function': fn, 'variant': 'term', 'inputs': dict(sorted(free_vars(xp, {}).items())), 'outputs': [], 'final_name': {},
+                                        'last_version': {}, 'bindings': [n for n, _ in xp], 'kinds_of_bindings': {n: e.kind for n, e in xp},
+                                        'calls': [], 'decisions': {}, 'solves': {}, 'nodes': sum(expr_size(e) for _, e in xp), 'auxiliary': True}
         # inputs in order of first use is not needed; sort for stability
         manifest['programs'][pname] = {
             'file': relfile, 'function': fn, 'variant': variant,
-            'inputs': dict(sorted(it.inputs.items())),
+            'inputs': dict(sorted(free_vars(it.prog, it.inputs).items())),
             'outputs': list(dict.fromkeys(it.outputs)),
             'final_name': dict(it.final_name),
             'last_version': {k: (k if v == 1 else '%s#%d' % (k, v)) for k, v in it.versions.items()},
             'bindings': [n for n, _ in it.prog],
             'kinds_of_bindings': {n: e.kind for n, e in it.prog},
             'calls': it.calls, 'decisions': {k: v for k, v in dec.items()},
-            'solves': it.aux_progs,
+            'solves': it.aux_progs, 'facts': getattr(it, 'facts', {}),
             'nodes': sum(expr_size(e) for _, e in it.prog),
         }
     for fn, items in byfile.items():
